@@ -40,3 +40,14 @@ impl Object {
         self.svcs.iter().copied()
     }
 }
+
+#[cfg(feature = "verif-hooks")]
+impl Object {
+    pub(crate) fn verif_snapshot(&self) -> crate::verif::ObjectSnapshot {
+        crate::verif::ObjectSnapshot {
+            conn: self.conn_id.verif_raw(),
+            cookie: self.cookie,
+            services: self.svcs.iter().copied().collect(),
+        }
+    }
+}
